@@ -203,6 +203,9 @@ def _run_props(res, ctx):
                   # C12-m13: a new visit_AsyncFunctionDef ran the checks without adding their scores; C12-m14: `# nosec B001` withheld without counting)
                   "async_defs": {"co.py": "import ssl\nasync def login(user, password='s3cr3t'):\n    pass\nclass K:\n    async def m(self, token='t0k', v=ssl.PROTOCOL_SSLv3):\n        assert self\n"
                                           "async def g():\n    async with a as b:\n        exec(c)\n    async for i in r:\n        eval(i)\n"},
+                  # a module without a statement (licence header, commented-out module) whose comment holds a bidi character: the whole-file finding is counted like any
+                  # other (seeded change C12-m18 took a fast path for an empty body and dropped the scores of the whole-file checks)
+                  "comment_only_bidi": {"header.py": "# licence \u202e header\n# more text\n", "empty.py": "", "doc.py": '"""doc \u2066 string"""\n', "code.py": "import pickle\n# \u2067\n"},
                   "none_survives": {"old1.py": "print 'py2'\r\nx = 1\r\n# comment\r\nimport pickle  # nosec", "old2.py": "exec 'code'\ny = 2\n\n"},
                   "one_survives": {"old1.py": "print 'py2'\nx = 1\n", "ok.py": "import pickle\nassert x\n"}}
         for label, fs in sets12.items():
@@ -233,6 +236,27 @@ def _run_props(res, ctx):
                     probs["%s loc" % os.path.basename(fn)] = [blk.get("loc"), spec_loc(raw)]
             if probs:
                 res.violation("metrics differ from the findings / the lines of the files ([metric, expected])", {"files": fs, "problems": probs, "skipped": [[os.path.basename(n), r] for n, r in mgr.skipped]})
+        # ---- a file the visitor gives up on (nesting beyond the recursion limit) AFTER comments have withheld findings: what its counters show is what the same
+        #      statements show in a file of their own — nothing is counted twice (seeded change C12-m17 re-scanned such a file with a raised limit: the counters
+        #      of the aborted first pass stayed and the second pass added its own)
+        deep_dir = os.path.join(scratch.root, "deep12"); os.makedirs(deep_dir)
+        head_ = "import subprocess\nsubprocess.Popen('ls', shell=True)  # nosec\neval(x)  # nosec B307\nimport pickle  # nosec B999, B403\n"
+        for label_, tail_ in (("binop-1200", "y = 1" + " + 1" * 1200 + "\n"), ("call-chain-700", "y = f()" + ".g()" * 700 + "\n"), ("compare-chain-1500", "y = a" + " < b" * 1500 + "\n")):      # shapes the PARSER accepts: only the visitor gives up
+            vals = {}
+            for nm, body in (("head.py", head_), ("deep.py", head_ + tail_)):
+                pth = os.path.join(deep_dir, label_ + "_" + nm)
+                with open(pth, "w") as fh:
+                    fh.write(body)
+                mgr = b_manager.BanditManager(b_config.BanditConfig(), "file")
+                mgr.discover_files([pth]); mgr.run_tests(); C.take_log()
+                blk = next((v for k, v in mgr.metrics.data.items() if k != "_totals"), {})
+                vals[nm] = (blk.get("nosec"), blk.get("skipped_tests"), bool(mgr.skipped), mgr.metrics.data.get("_totals", {}).get("nosec"), mgr.metrics.data.get("_totals", {}).get("skipped_tests"))
+            res.case(("deep-after-nosec", label_), True)
+            res.count("deep-after-nosec")
+            h, dp = vals["head.py"], vals["deep.py"]
+            if dp[:2] != h[:2] or dp[3:] != h[3:]:
+                res.violation("the nosec / skipped_tests counters of a file with a deeply nested statement at its end differ from those of the statements before it",
+                              {"statements_with_comments": head_, "deep_statement": label_, "[nosec, skipped_tests, file skipped, total nosec, total skipped_tests] alone": list(h), "with the deep statement appended": list(dp)})
         # ---- a run over more files than the progress threshold (50): totals are still the sums over the files (seeded change C12-m10 aggregated every 50
         #      files, and aggregate() folds the previous totals block in again)
         many = os.path.join(scratch.root, "many"); os.makedirs(many)
